@@ -1,6 +1,7 @@
 (** C12 — pinned statements. Nothing but statements, [exact], and assumption audits. *)
 From TU Require Import Base C12_Model C12_Spec C12_Matrix C12_Trace C12_Norm C12_Proofs.
 From Coq Require Import QArith.
+From TU Require Import UAX29_Model C12_UAX29.
 Open Scope nat_scope.
 
 (** ** distance = the reference metric.  [Align fl a b n]: an alignment of cost [n]
@@ -144,4 +145,96 @@ Proof. intros _ _. vm_compute. repeat constructor. Qed.
 Example check_example :
   let v := (L [I 0; I 1; I 1; I 1; L [L [I 97]; L [I 32]; L [I 98]]; L [L [I 98]; L [I 97]; L [I 32]; L [I 32]]; I 2; I 2])%Z in
   check_C12 v (run_C12 v) = true.
+Proof. vm_compute. reflexivity. Qed.
+
+(** ** Grapheme mode with the segmenter inside the model (UAX29_Model.segment, tied to the crate
+    unicode-segmentation by the correspondence [uax29_agree]).  The statements are about two TEXTS
+    [sa], [sb] (lists of code points); the characters are the clusters of [segment sa], [segment sb]:
+    [dist_u fl sa sb = dist fl (segment sa) (segment sb)], likewise [distance_u], [prefix_distance_u],
+    [operations_u].  No segmentation is quantified over and none is assumed. *)
+Theorem dist_achieved_u : forall fl sa sb, Align fl (segment sa) (segment sb) (dist_u fl sa sb).
+Proof. exact dist_achieved_u_l. Qed.
+Print Assumptions dist_achieved_u.
+
+Theorem dist_minimal_u : forall fl sa sb n, Align fl (segment sa) (segment sb) n -> dist_u fl sa sb <= n.
+Proof. exact dist_minimal_u_l. Qed.
+Print Assumptions dist_minimal_u.
+
+(** distance 0 (normalised or not) exactly for equal texts: the segmentation determines the text *)
+Theorem norm_zero_u : forall fl nm sa sb, (distance_u fl nm sa sb == 0)%Q <-> sa = sb.
+Proof. exact norm_zero_u_l. Qed.
+Print Assumptions norm_zero_u.
+
+Theorem dist_zero_u : forall fl sa sb, dist_u fl sa sb = 0 <-> sa = sb.
+Proof. exact dist_zero_u_l. Qed.
+Print Assumptions dist_zero_u.
+
+(** bounds in code points of the texts (a text has at most as many clusters as code points) *)
+Theorem dist_le_u : forall fl sa sb,
+  dist_u fl sa sb <= length sa + length sb
+  /\ (sid fl = false -> dist_u fl sa sb <= Nat.max (length sa) (length sb)).
+Proof. exact dist_le_u_l. Qed.
+Print Assumptions dist_le_u.
+
+Theorem norm_range_u : forall fl sa sb,
+  (0 <= distance_u fl true sa sb)%Q /\ (distance_u fl true sa sb <= 2)%Q
+  /\ (sid fl = false -> (distance_u fl true sa sb <= 1)%Q)
+  /\ (0 <= prefix_distance_u fl true sa sb <= 1)%Q.
+Proof. exact norm_range_u_l. Qed.
+Print Assumptions norm_range_u.
+
+Theorem prefix_dist_min_u : forall fl sa sb,
+  (exists k, k <= length (segment sb)
+     /\ prefix_dist fl (segment sa) (segment sb) = dist fl (segment sa) (firstn k (segment sb)))
+  /\ (forall k, prefix_dist fl (segment sa) (segment sb) <= dist fl (segment sa) (firstn k (segment sb))).
+Proof. exact prefix_dist_min_u_l. Qed.
+Print Assumptions prefix_dist_min_u.
+
+(** operations on two texts: never the error value; the script is sorted, turns the clusters of [sa]
+    into the clusters of [sb] with permitted operations only, has length = distance, is an alignment,
+    and no script that applies is shorter *)
+Theorem operations_u_spec : forall fl sa sb,
+  exists ops, operations_u fl sa sb = Some ops
+    /\ sortedb ops = true
+    /\ script_ok fl ops (segment sa) (segment sb) = true
+    /\ length ops = dist_u fl sa sb
+    /\ Align fl (segment sa) (segment sb) (length ops)
+    /\ (forall ops', script_ok fl ops' (segment sa) (segment sb) = true -> length ops <= length ops').
+Proof. exact operations_u_l. Qed.
+Print Assumptions operations_u_spec.
+
+(** on printable ASCII texts grapheme mode and code-point mode give the same distance and script *)
+Theorem ascii_modes_agree : forall fl nm sa sb,
+  forallb printable_ascii sa = true -> forallb printable_ascii sb = true ->
+  dist_u fl sa sb = dist fl (singletons sa) (singletons sb)
+  /\ distance_u fl nm sa sb = distance fl nm (singletons sa) (singletons sb)
+  /\ operations_u fl sa sb = operations fl (singletons sa) (singletons sb).
+Proof. exact ascii_modes_l. Qed.
+Print Assumptions ascii_modes_agree.
+
+(** the harness input built entirely by the model (either mode; premise = outside the KF2 class)
+    passes the executable statement and the segmenter correspondence; an input accepted by
+    [uax29_agree] carries the model's own segmentation of the two texts it spells *)
+Theorem check_run_u : forall g fl nm sa sb na nb,
+  (nm = true -> sid fl = true ->
+   dist fl (seg_of g sa) (seg_of g sb) <= Nat.max (length (seg_of g sa)) (length (seg_of g sb))) ->
+  let v := input_of g fl nm sa sb na nb in
+  check_C12 v (run_C12 v) = true /\ uax29_agree v = true.
+Proof. exact check_run_u_l. Qed.
+Print Assumptions check_run_u.
+
+Theorem uax29_agree_sound : forall v, uax29_agree v = true ->
+  in_a v = seg_of (v_bool (v_nth 0 v)) (concat (in_a v))
+  /\ in_b v = seg_of (v_bool (v_nth 0 v)) (concat (in_b v)).
+Proof. exact uax29_agree_sound_l. Qed.
+Print Assumptions uax29_agree_sound.
+
+(** "e U+0301 a" vs "e a": one cluster replaced in grapheme mode (e+U+0301 is one character) *)
+Example dist_u_example :
+  (dist_u (Flags false false) [101; 769; 97]%N [101; 97]%N,
+   operations_u (Flags false false) [101; 769; 97]%N [101; 97]%N) = (1, Some [(EReplace, 0, 0)]).
+Proof. vm_compute. reflexivity. Qed.
+(** two flags: swapping them is one transposition of clusters *)
+Example dist_u_flags :
+  dist_u (Flags true false) [127462; 127463; 127464; 127465]%N [127464; 127465; 127462; 127463]%N = 1.
 Proof. vm_compute. reflexivity. Qed.
